@@ -221,7 +221,7 @@ TRUSTED = [
 CID, DX, DS, DC, DF, CNEV, DD, DK, DL, DFILES, DPT, DST, DSTC, DFSPEC = range(14)
 
 
-def judge_delivery(run, cases, rows, pid, why):
+def judge_delivery(run, cases, rows, pid, why, kinds=None):
     """every event is offered to the real informer handler of its kind; one that differs from the last event about the
     object must reach the sync queue (used by the checks whose property depends on the controller seeing every change)"""
     for c in cases:
@@ -230,6 +230,8 @@ def judge_delivery(run, cases, rows, pid, why):
         r = rows[c["id"]]
         if r[DD] != 0:
             ev = c["histories"][0]["events"][r[DD] - 1]
+            if kinds and ev["spec"]["kind"] not in kinds:
+                continue
             pr = c["ctl"][r[DD] - 1].get("probe") or {}
             run.failing({"kind": "event-not-delivered", "event_kind": ev["spec"]["kind"]}, [c],
                         "%s: at step %d of case %d the real informer handler drops a %s event (%s) about %s %s/%s that differs from the last one about that object (%s): %s"
